@@ -24,6 +24,18 @@ PROPS = {
         "trusted_base": [KERNEL, TIE, "key generation/parsing is opaque to the model (only success/failure enters)"],
         "assumptions": ["model Manager.lean is tied to keyset/manager.go by differential execution, not by translation"],
     },
+    "C07": {
+        "lean": ["TinkVerif.Props.C07"],
+        "theorems": ["TinkVerif.Stream." + t for t in (
+            "writer_chunking_independent writer_partition_irrelevant segments_cover_plaintext segmentNonce_injective "
+            "segmentNonce_limit sink_fault_surfaces flush_fails_after_fault failed_flush_keeps_segment read_honest "
+            "reader_chunking_independent stream_roundtrip read_sound manipulation_detected source_fault_never_eof "
+            "idealCipher_sound").split()],
+        "harness": [{"name": "c07a"}],
+        "rule": "",
+        "trusted_base": [KERNEL, TIE],
+        "assumptions": [],
+    },
 }
 
 NOT_BUILT = {}
